@@ -3,7 +3,7 @@
    next_option_safe / coap_opt_parse (Wire/ParseIdx.v) reads the received bytes only through
    checked reads and loops on fuel.  Statements only; proofs in Wire/ParseIdxProofs.v. *)
 From LibcoapV Require Import Base.Tactics Base.Bytes Wire.OptCodec Wire.Pdu Wire.ParseIdx
-  Wire.ParseIdxProofs.
+  Wire.ParseIdxProofs Wire.ParseIdxRefine Wire.PduProofs.
 Local Open Scope Z_scope.
 
 (* for every byte string and every framing: no read outside the received bytes, termination *)
@@ -40,3 +40,20 @@ Theorem C02_reject_no_message : forall p buf,
   ix_parse true p buf = IxRej -> forall m, ix_parse true p buf <> IxOk m.
 Proof. exact ix_parse_reject_no_message. Qed.
 Print Assumptions C02_reject_no_message.
+
+(* the bounds-safe index-level parser is the same function as the list-level parser that C03
+   proves sound and complete: same accept/reject, same message, for every byte string *)
+Theorem C02_safe_parser_is_the_reference_parser : forall p buf,
+  wfb buf -> ix_opt (ix_parse true p buf) = parse p buf.
+Proof. exact ix_parse_refines. Qed.
+Print Assumptions C02_safe_parser_is_the_reference_parser.
+
+Theorem C02_safe_parser_sound_udp : forall bs m,
+  wfb bs -> ix_parse true UDP bs = IxOk m -> msg_wf m /\ serialize UDP m = bs.
+Proof. exact ix_parse_sound_udp. Qed.
+Print Assumptions C02_safe_parser_sound_udp.
+
+Theorem C02_safe_parser_complete : forall p m,
+  msg_wf m -> wfb (serialize p m) -> ix_parse true p (serialize p m) = IxOk (norm_fields p m).
+Proof. exact ix_parse_complete. Qed.
+Print Assumptions C02_safe_parser_complete.
